@@ -33,9 +33,13 @@ func (ie *IfExpression) String() string {
 
 	for _, elseIf := range ie.ElseIf {
 		out.WriteString(" } else if (")
-		out.WriteString(elseIf.Condition.String())
+		if elseIf.Condition != nil {
+			out.WriteString(elseIf.Condition.String())
+		}
 		out.WriteString(") { ")
-		out.WriteString(elseIf.Block.String())
+		if elseIf.Block != nil {
+			out.WriteString(elseIf.Block.String())
+		}
 		out.WriteString(" }")
 	}
 
